@@ -35,6 +35,18 @@ def load_controls(pid):
                 if det.get('property') == pid:
                     out.append({'kind': 'patch', 'name': 'seeded/' + d, 'patch': os.path.join(sd, d, 'patch.diff'),
                                 'expect': det.get('rule', pid), 'property': pid})
+    rd = os.path.join(VERIF, 'refactorings')
+    if os.path.isdir(rd):
+        for d in sorted(os.listdir(rd)):
+            mp = os.path.join(rd, d, 'meta.json')
+            if not os.path.exists(mp):
+                continue
+            with open(mp) as fh:
+                m = json.load(fh)
+            if pid in m.get('formerly_alarmed', []):
+                # a behaviour-preserving change this check once alarmed on: it must stay quiet
+                out.append({'kind': 'quiet', 'name': 'refactorings/' + d, 'patch': os.path.join(rd, d, 'patch.diff'),
+                            'expect': 'exit 0', 'property': pid})
     return out
 
 
@@ -66,6 +78,12 @@ def _run_one(c):
         p = subprocess.run([sys.executable, os.path.join(VERIF, 'check'), c['property'], '--tier', 'quick'],
                            stdout=subprocess.PIPE, stderr=subprocess.STDOUT, text=True, env=env, cwd=VERIF)
         lines = [l for l in p.stdout.splitlines() if 'violated: rule=' in l]
+        if c['kind'] == 'quiet':
+            if p.returncode == 0:
+                return dict(name=c['name'], expect=c['expect'], verdict='quiet')
+            last = p.stdout.strip().splitlines()[-1][:200] if p.stdout.strip() else ''
+            return dict(name=c['name'], expect=c['expect'], verdict='false-alarm',
+                        why=f'exit {p.returncode} on a behaviour-preserving change: {[l.strip()[:160] for l in lines[:2]] or last}')
         hit = [l for l in lines if 'rule=' + c['expect'] in l]
         if p.returncode == 1 and hit:
             return dict(name=c['name'], expect=c['expect'], verdict='fired', report=hit[0].strip()[:240])
